@@ -13,6 +13,7 @@ import (
 	"strconv"
 	"strings"
 	"sync/atomic"
+	"verif/props/zipx"
 
 	"golang.org/x/mod/module"
 	modzip "golang.org/x/mod/zip"
@@ -331,6 +332,10 @@ func Run(r *fw.Run) {
 			jobs = append(jobs, job{mv[0], mv[1], []ent{mk(pf + p)}})
 			jobs = append(jobs, job{mv[0], mv[1], []ent{mk(pf + "go.mod"), mk(pf + p)}})
 		}
+	}
+	// byte sweep over entry names
+	for _, n := range zipx.SweepNames() {
+		jobs = append(jobs, job{goodMod, goodVers, []ent{mk(prefixes[0] + n)}}, job{goodMod, goodVers, []ent{mk(prefixes[0] + "N"), mk(prefixes[0] + n)}})
 	}
 	r.Bounds["archives"] = len(jobs)
 	fw.Parallel(len(jobs), func(i int) {
